@@ -222,25 +222,27 @@ static void dynamic_tombstone(Ctx &c, int D, int first_op, uint8_t base, uint8_t
 
 // ---- 6. MultidimensionalPGMIndex -----------------------------------------------------------------------------------------------
 template<uint8_t Dm, typename T, size_t... I> auto tup(const std::array<T, Dm> &a, std::index_sequence<I...>) { return std::make_tuple(a[I]...); }
-template<uint8_t Dm, typename T> static void multidim_wide(Ctx &c, const char *name) {
+// In: the coordinate type of the tuples the caller supplies (the constructor takes any iterator; a caller may hold wider integers)
+template<uint8_t Dm, typename T, typename In = T> static void multidim_wide(Ctx &c, const char *name) {
     using MDI = pgm::MultidimensionalPGMIndex<Dm, T, 4>;
-    T limit = T(1) << (sizeof(T) * 8 / Dm - 1);   // first value that does not fit
-    std::vector<T> wide = {limit, T(limit + 1), T(limit * 2 - 1), std::numeric_limits<T>::max()};
+    In limit = In(1) << (sizeof(T) * 8 / Dm - 1);   // first value that does not fit
+    std::vector<In> wide = {limit, In(limit + 1), In(limit * 2 - 1), In(std::numeric_limits<T>::max())};
+    if constexpr (sizeof(In) > sizeof(T)) { wide.push_back((In(1) << (8 * sizeof(T))) + 5); wide.push_back(In(1) << 40); wide.push_back(std::numeric_limits<In>::max()); wide.push_back((In(3) << (8 * sizeof(T))) + In(limit - 1)); }
     for (int npts = 1; npts <= 3; ++npts)
         for (int pos = 0; pos < npts; ++pos)
             for (int dim = 0; dim < Dm; ++dim) {
-                auto build = [&](T v) {
-                    std::vector<decltype(tup<Dm, T>(std::array<T, Dm>{}, std::make_index_sequence<Dm>()))> pts;
-                    for (int p = 0; p < npts; ++p) { std::array<T, Dm> a; for (int d = 0; d < Dm; ++d) a[d] = T(p + d); if (p == pos) a[dim] = v; pts.push_back(tup<Dm, T>(a, std::make_index_sequence<Dm>())); }
+                auto build = [&](In v) {
+                    std::vector<decltype(tup<Dm, In>(std::array<In, Dm>{}, std::make_index_sequence<Dm>()))> pts;
+                    for (int p = 0; p < npts; ++p) { std::array<In, Dm> a; for (int d = 0; d < Dm; ++d) a[d] = In(p + d); if (p == pos) a[dim] = v; pts.push_back(tup<Dm, In>(a, std::make_index_sequence<Dm>())); }
                     MDI m(pts.begin(), pts.end());
                     (void) m.size_in_bytes();
                 };
                 std::string cs = std::string("part=multidim cfg=") + name + " points=" + std::to_string(npts) + " pos=" + std::to_string(pos) + " dim=" + std::to_string(dim);
                 c.run.set_case(cs); c.run.add(c.cn.multidim); c.run.add(c.cn.cases);
                 c.run.add(c.cn.valid);
-                Outcome ok = outcome_of([&] { build(T(limit - 1)); });
-                if (ok != ACCEPTED) c.run.violation(cs + " value=" + mc::key_str(T(limit - 1)), std::string("the largest encodable coordinate was rejected with ") + oname(ok));
-                for (T w : wide) {
+                Outcome ok = outcome_of([&] { build(In(limit - 1)); });
+                if (ok != ACCEPTED) c.run.violation(cs + " value=" + mc::key_str(In(limit - 1)), std::string("the largest encodable coordinate was rejected with ") + oname(ok));
+                for (In w : wide) {
                     c.run.add(c.cn.invalid);
                     Outcome o = outcome_of([&] { build(w); });
                     if (o == ACCEPTED) c.run.violation(cs + " value=" + mc::key_str(w), "a coordinate too wide for the encoder was accepted");
@@ -364,7 +366,7 @@ int main(int argc, char **argv) {
         } else if (t.part == 2) dynamic_bases(c);
         else if (t.part == 3) { if (t.sub == 0) dynamic_bulk<Dyn, uint32_t>(c, "u32", thorough ? 5 : 4); else dynamic_bulk<DynI64, int64_t>(c, "i64", thorough ? 5 : 4); }
         else if (t.part == 4) { static const uint8_t cfgs[3][3] = {{2, 1, 2}, {4, 1, 2}, {8, 0, 0}}; dynamic_tombstone(c, D, t.first, cfgs[t.sub][0], cfgs[t.sub][1], cfgs[t.sub][2]); }
-        else if (t.part == 5) { multidim_wide<2, uint32_t>(c, "md<2,u32>"); multidim_wide<3, uint32_t>(c, "md<3,u32>"); multidim_wide<2, uint64_t>(c, "md<2,u64>"); multidim_wide<3, uint64_t>(c, "md<3,u64>"); multidim_wide<4, uint64_t>(c, "md<4,u64>"); }
+        else if (t.part == 5) { multidim_wide<2, uint32_t>(c, "md<2,u32>"); multidim_wide<3, uint32_t>(c, "md<3,u32>"); multidim_wide<2, uint64_t>(c, "md<2,u64>"); multidim_wide<3, uint64_t>(c, "md<3,u64>"); multidim_wide<4, uint64_t>(c, "md<4,u64>"); multidim_wide<2, uint32_t, uint64_t>(c, "md<2,u32> from u64 tuples"); multidim_wide<3, uint32_t, uint64_t>(c, "md<3,u32> from u64 tuples"); }
         else { builder_sequences<uint32_t>(c, "u32"); builder_sequences<uint64_t>(c, "u64"); builder_sequences<int64_t>(c, "i64"); builder_sequences<double>(c, "f64"); }
     });
     { std::string cmd = "rm -rf " + g_dir; if (system(cmd.c_str())) {} }
@@ -380,7 +382,7 @@ int main(int argc, char **argv) {
     ev.states_counter = "distinct_cases"; ev.transitions_counter = "invalid_inputs_checked_to_be_rejected"; ev.nontrivial_counter = "invalid_inputs_checked_to_be_rejected"; ev.eval_counter = "valid_neighbour_inputs_checked_to_be_accepted";
     ev.rule = "every sorted array of length 1.." + std::to_string(N) + " over three palettes with 1..3 copies of the reserved value appended (numeric max, +infinity for floating keys) must make PGMIndex, CompressedPGMIndex, BucketingPGMIndex, EliasFanoPGMIndex, MappedPGMIndex (range and raw-file constructors) throw std::invalid_argument and the four C create functions return NULL, while the same array without it is accepted; the same with 32767/32768/40000-key inputs and 1..20 construction threads (chunked segmentation); "
               "DynamicPGMIndex: every base 2..255 through three constructors (reject iff not a power of two); every sequence of <= " + std::to_string(thorough ? 5 : 4) + " bulk-load keys over 4 values (reject iff an inversion exists); every history of depth <= " + std::to_string(D) +
-              " over 3 keys with the reserved mapped value offered for 4 keys at every point (must throw and leave canonical state and all answers unchanged) and lo>hi ranges tried at every point; MultidimensionalPGMIndex: every point position x dimension with the coordinate at the first too-wide value and above (reject) and just below (accept); "
+              " over 3 keys with the reserved mapped value offered for 4 keys at every point (must throw and leave canonical state and all answers unchanged) and lo>hi ranges tried at every point; MultidimensionalPGMIndex: every point position x dimension with the coordinate at the first too-wide value and above (reject) and just below (accept), also from tuples of a wider integer type whose values only fit after truncation; "
               "builder: every add_point sequence of length <= 4 over 3 x-values, epsilon 0/1 (std::logic_error exactly when x does not exceed its predecessor inside a segment), negative epsilon on a signed rank type. State = one case; non-trivial = an invalid input that must be rejected.";
     ev.bounds = "N<=" + std::to_string(N) + ", history depth " + std::to_string(D);
     ev.assumptions = {"the kind of exception is the one the property names; for too-wide coordinates any exception counts as rejection"};
